@@ -119,12 +119,29 @@ impl core::fmt::Debug for TryLockError {
     fn fmt(&self, f: &mut core::fmt::Formatter<'_>) -> core::fmt::Result { f.write_str("TryLockError") }
 }
 
-impl<T> RwLock<T> {
-    /// `RwLock::try_write`: fails iff the lock is held. ASSUMED (C03): the per-function locks of the *_mut variants
-    /// are only taken by the item closure of that function, and an item that holds a ticket is the only one for its
-    /// function, so its lock is free.
+impl<'m, F> RwLock<&'m mut F> {
+    /// `RwLock::try_write` on a PER-FUNCTION lock of the *_mut variants: fails iff the lock is held. ASSUMED (C03): these
+    /// locks are only taken by the item closure of their function, and an item that holds a ticket is the only one for
+    /// its function, so its lock is free.
     #[verifier::external_body]
-    pub fn try_write(&self, Tracked(w): Tracked<&mut World>) -> (r: Result<WriteGuard<'_, T>, TryLockError>)
+    pub fn try_write(&self, Tracked(w): Tracked<&mut World>) -> (r: Result<WriteGuard<'_, &'m mut F>, TryLockError>)
         ensures *final(w) == *old(w), ticket(*old(w)) ==> r is Ok,
+    { unimplemented!() }
+}
+
+impl RwLock<Option<Sender<NodeIndex<FnIdInner>>>> {
+    /// `RwLock::try_write` on the SHARED done-sender cell: other item closures may hold it (a done send keeps the read
+    /// guard across its await), so nothing is promised about success
+    #[verifier::external_body]
+    pub fn try_write(&self, Tracked(w): Tracked<&mut World>) -> (r: Result<WriteGuard<'_, Option<Sender<NodeIndex<FnIdInner>>>>, TryLockError>)
+        ensures *final(w) == *old(w), r is Ok ==> ((r->Ok_0.val() is Some ==> r->Ok_0.val()->Some_0.chan() == DONE) && (done_tx_gone(*old(w)) ==> r->Ok_0.val() is None)),
+    { unimplemented!() }
+}
+
+impl RwLock<usize> {
+    /// `RwLock::try_write` on the shared counter: nothing is promised about success
+    #[verifier::external_body]
+    pub fn try_write(&self, Tracked(w): Tracked<&mut World>) -> (r: Result<WriteGuard<'_, usize>, TryLockError>)
+        ensures *final(w) == *old(w),
     { unimplemented!() }
 }
